@@ -85,6 +85,29 @@ def step (s : St) : List String → St × List String
         let c := Chain.insert lexCmp { tree := s.tree, count := s.count } k
         let (lk, bad) := linkedInsert s k c.count none
         ({ s with tree := c.tree, count := c.count, lk := lk }, [s!"size={c.count}", s!"# case={cls}"] ++ bad)
+  | ["reins", key] =>
+    -- intrusive flavour only: the node OBJECT that is already linked under this key is handed to `chain::insert` again.
+    -- Persistent model: an equal element is present, so `Chain.insert` leaves the tree alone and bumps `count`;
+    -- pointer-level model: the statements of `chain::insert` run on the cell that is already linked (`insertChainAt`).
+    match parseIntList key with
+    | none => (s, ["bad-op"])
+    | some k =>
+      if s.own then (s, ["bad-op"]) else
+      match Tree.find lexCmp k s.tree with
+      | none => (s, ["bad-op"])
+      | some _ =>
+        let c := Chain.insert lexCmp { tree := s.tree, count := s.count } k
+        let (lk, bad) : Option (Linked.Store (List Int)) × List String := match s.lk with
+          | none => (none, [])
+          | some lk =>
+            match Linked.Store.find lexCmp lk k with
+            | some (some z) =>
+              match Linked.Store.insertChainAt lexCmp lk z with
+              | none => (none, ["linked-mismatch undefined-behaviour-in-insert"])
+              | some (lk', a) =>
+                (some lk', if lk'.count == c.count && a == z then [] else [s!"linked-mismatch size={lk'.count} node={a}"])
+            | _ => (some lk, ["linked-mismatch find"])
+        ({ s with tree := c.tree, count := c.count, lk := lk }, [s!"size={c.count}", "# case=reoffered"] ++ bad)
   | ["find", key] =>
     match parseIntList key with
     | none => (s, ["bad-op"])
